@@ -221,14 +221,48 @@ let conc file =
 let () =
   Hashtbl.replace replays "ebr" ebr_replay;
   Hashtbl.replace guided "rc" rc_replay;
+  Hashtbl.replace guided "rcinv" rc_invcheck;
   Hashtbl.replace replays "queue" queue_replay;
   Hashtbl.replace replays "list" list_replay;
   Hashtbl.replace replays "cell" cell_replay;
   Hashtbl.replace listfuns "traits_rc" traits_line;
   Hashtbl.replace listfuns "traits_snap" traits_line
 
+(* evaluate the executable count invariant (RcCheck.rc_invcheck) after every step of every rc case *)
+let inv file =
+  let ic = open_in file in
+  let cases = ref 0 and states = ref 0 and bad = ref 0 in
+  (try
+     while true do
+       let line = input_line ic in
+       if String.length line > 3 && String.sub line 0 3 = "rc " then begin
+         match split_on "|" line with
+         | [hd; sch; obs] ->
+           let hd_toks = String.split_on_char ' ' hd |> List.filter (fun x -> x <> "") in
+           let prog = List.map BZ.of_string (List.tl hd_toks) in
+           let sched = ints_of sch in
+           let want = List.map ints_of (split_on ";" obs) in
+           let got = rc_invcheck (List.map coq_of_z prog) (List.map coq_of_z sched) (List.map (List.map coq_of_z) want) in
+           incr cases;
+           List.iteri (fun i v ->
+               incr states;
+               match v with
+               | [x] when BZ.equal (z_of_coq x) BZ.zero -> ()
+               | l ->
+                 incr bad;
+                 if !bad <= 12 then
+                   Printf.printf "INVFAIL case %d step %d verdict %s\n" !cases i (show (List.map z_of_coq l))) got
+         | _ -> ()
+       end
+     done
+   with End_of_file -> ());
+  close_in ic;
+  Printf.printf "INVSUMMARY cases=%d states=%d failures=%d\n" !cases !states !bad;
+  if !bad > 0 then exit 1
+
 let () =
   match Array.to_list Sys.argv with
+  | _ :: "inv" :: file :: _ -> inv file
   | _ :: "pure" :: file :: _ -> pure file
   | _ :: "conc" :: file :: _ -> conc file
   | _ -> prerr_endline "usage: driver (pure|conc) <file>"; exit 2
